@@ -109,7 +109,11 @@ def build_repo_bin(release=False):
 
 def _run_lines(exe, lines, timeout):
     data = ("\n".join(lines) + "\n").encode("utf-8")
-    p = subprocess.run([exe], input=data, stdout=subprocess.PIPE, stderr=subprocess.PIPE, timeout=timeout)
+    try:
+        p = subprocess.run([exe], input=data, stdout=subprocess.PIPE, stderr=subprocess.PIPE, timeout=timeout)
+    except subprocess.TimeoutExpired as e:
+        # an evaluator that does not finish in time breaks the tie between model and code: reported by the caller
+        raise BuildError("evaluator %s did not finish %d cases within %d s" % (exe, len(lines), timeout))
     out = p.stdout.decode("utf-8", "replace").split("\n")
     if out and out[-1] == "":
         out.pop()
@@ -133,11 +137,11 @@ def run_sharded(exe, lines, timeout=1200, shards=None):
     return out
 
 
-def run_model(lines, timeout=1200):
+def run_model(lines, timeout=3000):
     return run_sharded(DRIVER, lines, timeout)
 
 
-def run_impl(lines, timeout=1200, release=False):
+def run_impl(lines, timeout=3000, release=False):
     return run_sharded(HARNESS_REL if release else HARNESS, lines, timeout)
 
 
